@@ -143,7 +143,23 @@ class Roles:
                     if cb is not None and cb.path not in wp:
                         depth.setdefault(cb.path, depth[b.path] + 1)
                         work.append(cb)
-            return [b for b in self.enq_fns if b.path not in wp]
+            out = [b for b in self.enq_fns if b.path not in wp]
+            # plus: whatever the push primitive calls with the key INSERT returned (the marking primitive by use,
+            # however it is implemented inside)
+            try:
+                ins = self.insert_fn
+                for cb_, ss in self.callers_of(ins):
+                    cfl = self.ctx.flow(cb_)
+                    for bb, t, fn in cb_.calls():
+                        tb = callee_body(self.f, fn)
+                        if tb is None or cb_.is_cleanup(bb) or tb.path == ins.path or not t["args"]:
+                            continue
+                        idx = cfl.operand_expr(t["args"][-1])
+                        if any(c[1] == ins.path for c in expr_calls(idx)) and tb not in out and tb.path not in wp:
+                            out.append(tb)
+            except AnchorLost:
+                pass
+            return out
         return self._c("mark", find)
 
     @property
@@ -231,17 +247,27 @@ class Roles:
                     out.append((bb, t, fn))
         return out
 
-    def task_wake_sites(self, body):
-        """TASK-WAKE: Waker::wake(_by_ref) whose receiver is Context::waker(cx) of a `cx` parameter
-        (or any &mut Context parameter) of the enclosing function."""
+    def task_wake_sites(self, body, strict=False):
+        """TASK-WAKE: Waker::wake(_by_ref) whose receiver is Context::waker(cx) of a `cx` parameter of the enclosing
+        function.  Unless `strict`, also a wake of the slot waker of a slot just delivered by POP in a function that
+        registered its own cx waker first: that waker's wake path notifies the registered (= current) task waker, or
+        the slot was already re-woken after the registration, which notified it."""
         fl = self.ctx.flow(body)
         out = []
+        pops = {p.path for p in self.pop_fns}
         for bb, t, fn in direct_sites(body, RE_WAKE):
             recv = strip_refs(fl.operand_expr(t["args"][0]))
             if recv[0] == "call" and re.search(RE_CTX_WAKER, recv[1]):
                 src = strip_refs(recv[2][0])
                 if src[0] == "param":
                     out.append((bb, t, fn))
+                elif not strict and src[0] == "call" and re.search(RE_FROM_WAKER, src[1] or ""):
+                    w = strip_refs(src[2][0])
+                    if any(c[1] in pops for c in expr_calls(w)) and any(body.dominates(rb, bb) for rb, _, _, _ in sites(self.f, body, RE_DW_REGISTER)):
+                        out.append((bb, t, fn))
+            elif not strict and any(c[1] in pops for c in expr_calls(recv)) and \
+                    any(body.dominates(rb, bb) for rb, _, _, _ in sites(self.f, body, RE_DW_REGISTER)):
+                out.append((bb, t, fn))
         return out
 
     def ctx_params(self, body):
